@@ -340,7 +340,7 @@ def inline_hir(node, new_hir, counter, depth=0):
                     if isinstance(x_, (dict, list)):
                         mark(x_)
         mark(body)
-        body = inline_hir(body, new_hir, counter, depth + 1)
+        body = inline_hir(body, ({k_: v_ for k_, v_ in new_hir.items() if not v_.get("_rec")} if h.get("_rec") else new_hir), counter, depth + 1)
         return {"k": "block", "stmts": stmts, "expr": body, "ln": node.get("ln"), "inlined": h["path"], "inl_id": off}
     return node
 
@@ -813,6 +813,7 @@ def apply(fb):
                 if c in new and c not in seen:
                     seen.add(c)
                     st.append(c)
+    rec_new = {k: b for k, b in new.items() if k in rec}
     new = {k: b for k, b in new.items() if k not in rec}
     pristine = {k: copy.deepcopy(b) for k, b in new.items()}
     remaining_calls = {k: 0 for k in new}
@@ -841,10 +842,17 @@ def apply(fb):
                 if ck in remaining_calls and ck != key:
                     remaining_calls[ck] += 1
     new_hir = {k: copy.deepcopy(fb.hir[k]) for k in new if k in fb.hir}
+    # a NEW recursive function (the recursive body of a listed function moved into a helper: `Expression::print` -> `print_ops`) is
+    # shown ONE level deep inside its listed callers (HIR only), so that rules reading the listed function still see the code; the
+    # helper stays a unit of analysis of its own (REACH / RECUR see the recursion)
+    rec_hir = {k: {**copy.deepcopy(fb.hir[k]), "_rec": True} for k in rec_new if k in fb.hir}
     counter = [0]
     for key, h in fb.hir.items():
         before = counter[0]
-        h["body"] = inline_hir(h["body"], {k: v for k, v in new_hir.items() if k != key}, counter)
+        avail = {k: v for k, v in new_hir.items() if k != key}
+        if key not in new and key not in rec_new and h.get("crate") in ("biscuit_auth", "biscuit_capi", "biscuit_parser", "biscuit_quote"):
+            avail.update({k: v for k, v in rec_hir.items() if v.get("crate") == h.get("crate")})
+        h["body"] = inline_hir(h["body"], avail, counter)
         if counter[0] != before:
             # a closure handed to the helper as an argument is now `let f = || ..; .. f() ..` inside the inlined block
             h["body"] = inline_local_closures(h["body"], cnt)
